@@ -79,6 +79,7 @@ type Race struct {
 }
 
 type shadow struct {
+	keep       interface{} // the pointer itself: keeps the object alive so that its address cannot be reused within the execution
 	wTid, wClk int
 	wSite      string
 	rClk       map[int]int
@@ -116,6 +117,7 @@ type Sched struct {
 	objSeq   map[string]int
 	chanVC   map[uintptr]VC
 	atomVC   map[uintptr]VC
+	keepAlive []interface{} // objects whose addresses key the maps above (no address reuse within an execution)
 	shadows  map[uintptr]*shadow
 	raceSeen map[string]bool
 	closed   map[uintptr]bool
@@ -520,6 +522,7 @@ func (s *Sched) name(obj interface{}) string {
 	s.objSeq[ty]++
 	n := fmt.Sprintf("%s#%d", ty, s.objSeq[ty])
 	s.objNames[p] = n
+	s.keepAlive = append(s.keepAlive, obj)
 	return n
 }
 
@@ -567,6 +570,7 @@ func AtomicOp(kind string, addr unsafe.Pointer) {
 	if vc == nil {
 		vc = VC{}
 		s.atomVC[p] = vc
+		s.keepAlive = append(s.keepAlive, addr)
 	}
 	t := s.cur
 	t.vc.join(vc)
@@ -605,7 +609,7 @@ func access(addr interface{}, label string, write bool) {
 	site := fmt.Sprintf("%s %s:%d", kind, strings.TrimPrefix(file, "/repo/"), line)
 	sh := s.shadows[p]
 	if sh == nil {
-		sh = &shadow{wTid: -1, rClk: map[int]int{}, rSite: map[int]string{}}
+		sh = &shadow{keep: addr, wTid: -1, rClk: map[int]int{}, rSite: map[int]string{}}
 		s.shadows[p] = sh
 	}
 	if sh.wTid >= 0 && sh.wTid != t.id && sh.wClk > t.vc[sh.wTid] {
@@ -684,6 +688,7 @@ func (s *Sched) chanHB(v reflect.Value) {
 	if vc == nil {
 		vc = VC{}
 		s.chanVC[p] = vc
+		s.keepAlive = append(s.keepAlive, v.Interface())
 	}
 	t := s.cur
 	t.vc.join(vc)
